@@ -44,7 +44,8 @@ ASSUMPTIONS = [
 RULE = ("fixed families (never queried / queried without domain / with explicit domain / held query object / related "
         "instances / mid-body drops / temporaries created and discarded back to back / Role[Emp] instances whose "
         "head_of infers through the role taker, query-free) x 4-5 iterations + random loop bodies of 2-9 operations "
-        "(drops without a sweep, churn) + random query-free role bodies; non-trivial = the body "
+        "(drops without a sweep, churn) + random query-free role bodies + long-lived roots holding transients that are "
+        "reached by queries over the root type through flatten(root.knows); non-trivial = the body "
         "creates an instance and relates or queries it; distinct by case text")
 
 
@@ -93,6 +94,20 @@ def _families():
         out.append((base + [["head", 2, 1], ["drop", 2], ["drop", 0]], "role"))
         out.append((base + [["new", 3, 1], ["head", 2, 1], ["head", 2, 3]], "role"))
         out.append((base + [["new", 3, 2], ["newrole", 4, 3], ["head", 2, 1], ["head", 4, 1]], "role"))
+        # long-lived roots that hold transient instances in a plain list field; every iteration attaches fresh
+        # transients, queries the ROOT type and reaches the transients through flatten(root.knows), detaches them
+        for tcls in (2, 3, 4, 9):
+            pre = ["pre", ["new", 900, 1], ["new", 901, 1]]
+            body = [["new", 0, tcls], ["new", 1, tcls], ["new", 2, tcls], ["attach", 900, 0], ["attach", 900, 1],
+                    ["attach", 901, 2]]
+            tail = [["detach", 900], ["detach", 901]]
+            out.append(([pre] + body + [["queryf", 1]] + tail, "roots"))
+            out.append(([pre] + body + [["queryfd", 1, 900, 901]] + tail, "roots"))
+            out.append(([pre] + body + [["queryf", 1], ["queryfd", 1, 900], ["queryf", 0]] + tail, "roots"))
+            out.append(([pre] + body + tail, "roots"))
+        # related temporaries discarded back to back (dead, unswept, their ids recycled), the last one kept
+        out.append(([["new", 0, 1], ["relchurn", 10, 5, 1, 3, 0], ["new", 20, 1], ["set", 3, 20, 0]], "relchurn"))
+        out.append(([["new", 0, 2], ["relchurn", 10, 5, 3, 4, 0], ["new", 20, 3], ["rel", 4, 20, 0]], "relchurn"))
         yield from ((n, ops, tag) for ops, tag in out)
         out = []
 
@@ -128,6 +143,26 @@ def generate(rng, tier, n):
         if any(op[0] == "churn" for op in ops):
             tags.append("churn")
         cases.append(_case(rng.choice([4, 5]), ops, tags, "random"))
+    # long-lived roots, transients reached through flatten(root.knows) by queries over the root type
+    for _ in range(n // 5):
+        roots = [900 + i for i in range(rng.randint(1, 3))]
+        pre = ["pre"] + [["new", r, 1] for r in roots]
+        body, trans = [], []
+        for k in range(rng.randint(1, 5)):
+            body.append(["new", k, rng.choice([2, 3, 4, 5, 7, 9])])
+            trans.append(k)
+            if rng.random() < 0.8:
+                body.append(["attach", rng.choice(roots), k])
+        for _k in range(rng.randint(1, 3)):
+            r = rng.random()
+            if r < 0.45:
+                body.append(["queryf", rng.choice([1, 1, 0])])
+            elif r < 0.9:
+                body.append(["queryfd", 1] + rng.sample(roots, rng.randint(1, len(roots))))
+            else:
+                body.append(["fill", rng.choice(trans)])
+        body += [["detach", r] for r in roots]
+        cases.append(_case(rng.choice([4, 5]), [pre] + body, ("random", "roots"), "random"))
     # roles (Role[Emp] with the inverse of head_of living on the role taker), query-free: create / relate / discard
     for _ in range(n // 5):
         ops, nxt = [], 0
@@ -171,7 +206,7 @@ def compare(a: str, b: str) -> bool:
 
 def nontrivial(case: Case, spec: str) -> bool:
     return ("(new" in case.line or "(churn" in case.line) and any(
-        k in case.line for k in ("(set", "(rel", "query", "evalq", "(head", "(churn"))
+        k in case.line for k in ("(set", "(rel", "query", "evalq", "(head", "(churn", "(attach"))
 
 
 def shrink(case: Case):
